@@ -38,11 +38,12 @@ const (
 	FStatusWithData           // probe: 500 with the clean body
 	FNullEntities             // probe: every entity null
 	FNaNData                  // probe: numbers inside data printed as NaN
+	FPartial                  // "errors with partial data": some entities with a field nulled + errors entries (RunConfig.Partials)
 	faultKindEnd
 )
 
 var faultNames = [...]string{"none", "transport", "status_empty", "status_text", "status_errors", "empty", "nonjson", "truncated",
-	"nan_body", "errors_nodata", "errors_nulldata", "nulldata", "count_less", "count_more", "status_with_data", "null_entities", "nan_data"}
+	"nan_body", "errors_nodata", "errors_nulldata", "nulldata", "count_less", "count_more", "status_with_data", "null_entities", "nan_data", "partial"}
 
 func (k FaultKind) String() string { return faultNames[k] }
 func FaultKindByName(s string) FaultKind {
@@ -57,7 +58,7 @@ func FaultKindByName(s string) FaultKind {
 // Applicable reports whether the kind makes sense for the fetch kind.
 func (k FaultKind) Applicable(fk FKind) bool {
 	switch k {
-	case FCountLess, FCountMore, FNullEntities:
+	case FCountLess, FCountMore, FNullEntities, FPartial:
 		return fk != FSingle
 	}
 	return k != FNone
@@ -81,6 +82,7 @@ type Request struct {
 	Fault   FaultKind
 	CC      []string
 	NErrors int
+	Failed  []int // FPartial: the positions of `_entities` whose field was really set to null
 }
 
 // Answer is one (fetch, representation) -> entity answer pair the oracle was asked for.
@@ -93,6 +95,7 @@ type Answer struct {
 
 type RunConfig struct {
 	Faults       map[int]FaultKind                  // by fetch id
+	Partials     map[int]*Partial                   // by fetch id, for Faults[id] == FPartial
 	CacheControl func(fetchID, seq int) []string    // Cache-Control header values of the response
 	Cache        caching.Cache                      // nil = no cache
 	DefaultTTL   time.Duration
@@ -245,6 +248,11 @@ func (d *ds) Load(ctx context.Context, headers http.Header, input []byte) ([]byt
 				errs = append(errs, `{"message":"boom","path":["_entities",`+strconv.Itoa(i)+`]}`)
 			}
 		}
+		if pf := st.cfg.Partials[f.ID]; fault == FPartial && pf != nil {
+			var perrs []string
+			entities, perrs, rq.Failed = pf.Apply(entities)
+			errs = append(errs, perrs...)
+		}
 		switch fault {
 		case FCountLess:
 			if len(entities) > 0 {
@@ -348,6 +356,9 @@ func (p *Plan) buildFetch(f *Fetch) *resolve.FetchTreeNode {
 	}
 	deps := resolve.FetchDependencies{FetchID: f.ID, DependsOnFetchIDs: append([]int(nil), f.Deps...)}
 	info := &resolve.FetchInfo{DataSourceID: f.DSID(), DataSourceName: f.DSName(), OperationType: ast.OperationTypeQuery}
+	for _, r := range f.Reasons {
+		info.FetchReasons = append(info.FetchReasons, resolve.FetchReason{TypeName: r.Type, FieldName: r.Field, IsRequires: true, Nullable: r.Nullable})
+	}
 	source := &ds{p: p, f: f}
 	var fetch resolve.Fetch
 	switch f.Kind {
